@@ -637,7 +637,111 @@ def c12(tier):
                       t0)
 
 
-REGISTRY = {"C01": c01, "C07": c07, "C15": c15, "C10": c10, "C13": c13, "C03": c03, "C18": c18, "C12": c12, "C11": c11, "C19": c19, "C14": c14, "C16": c16, "C04": c04, "C05": c05, "C06": c06, "C08": c08, "C09": c09}
+CMD_NAMES = ["GET_LIB_VERSION", "GET_LOG_INFO", "GET_CURRENT_SF_INFO", "GET_NORM_DOUBLE", "GET_NORM_FLOAT", "SET_NORM_DOUBLE", "SET_NORM_FLOAT",
+             "SET_SCALE_FLOAT_INT_READ", "SET_SCALE_INT_FLOAT_WRITE", "GET_SIMPLE_FORMAT_COUNT", "GET_SIMPLE_FORMAT", "GET_FORMAT_INFO",
+             "GET_FORMAT_MAJOR_COUNT", "GET_FORMAT_MAJOR", "GET_FORMAT_SUBTYPE_COUNT", "GET_FORMAT_SUBTYPE", "CALC_SIGNAL_MAX", "CALC_NORM_SIGNAL_MAX",
+             "CALC_MAX_ALL_CHANNELS", "CALC_NORM_MAX_ALL_CHANNELS", "GET_SIGNAL_MAX", "GET_MAX_ALL_CHANNELS", "SET_ADD_PEAK_CHUNK",
+             "UPDATE_HEADER_NOW", "SET_UPDATE_HEADER_AUTO", "FILE_TRUNCATE", "SET_RAW_START_OFFSET", "SET_DITHER_ON_WRITE", "SET_DITHER_ON_READ",
+             "GET_DITHER_INFO_COUNT", "GET_DITHER_INFO", "GET_EMBED_FILE_INFO", "SET_CLIPPING", "GET_CLIPPING", "GET_CUE_COUNT", "GET_CUE", "SET_CUE",
+             "GET_INSTRUMENT", "SET_INSTRUMENT", "GET_LOOP_INFO", "GET_BROADCAST_INFO", "SET_BROADCAST_INFO", "GET_CHANNEL_MAP_INFO", "SET_CHANNEL_MAP_INFO",
+             "RAW_DATA_NEEDS_ENDSWAP", "WAVEX_SET_AMBISONIC", "WAVEX_GET_AMBISONIC", "RF64_AUTO_DOWNGRADE", "SET_VBR_ENCODING_QUALITY", "SET_COMPRESSION_LEVEL",
+             "SET_CART_INFO", "GET_CART_INFO", "SET_ORIGINAL_SAMPLERATE", "GET_ORIGINAL_SAMPLERATE", "SET_BITRATE_MODE", "GET_BITRATE_MODE",
+             "TEST_IEEE_FLOAT_REPLACE", "SET_OGG_PAGE_LATENCY_MS", "SET_OGG_PAGE_LATENCY", "GET_OGG_STREAM_SERIALNO"]
+
+
+def c17(tier):
+    t0 = time.time()
+    exe = vlib.build()
+    rng = random.Random(vlib.SEED)
+    undefined = ["0", "1", "-1", "0x0FFF", "0x1235", "0x7FFFFFFF", "0x1001", "0x10FF", "0x1400", "0x13FF"]
+    structs = [4, 8, 16, 24, 28, 32, 44, 56, 216, 220, 858, 1112, 2316, 2572, 27204, 27208]
+    base = list(range(0, 41))
+    sizes = sorted(set(base + [x + d for x in structs for d in ((-1, 0, 1, 8) if tier == "quick" else range(-2, 9))] + [4096] + ([] if tier == "quick" else [1 << 20])))
+    sizes = [x for x in sizes if x >= 0]
+    handles = [("none", None, None)]
+    fmts = [(0x10002, 2), (0x40006, 1)] if tier == "quick" else [(0x10002, 2), (0x10006, 1), (0x130002, 2), (0x220002, 1), (0x20002, 2), (0x20006, 1), (0x180002, 2), (0x180006, 1), (0x40002, 1), (0x40006, 2)]
+    for fmt, ch in fmts:
+        for mode in ("r", "w", "rw"):
+            handles.append((mode, fmt, ch))
+    names = CMD_NAMES + undefined
+    od = os.path.join(vlib.ROOT, "out", "C17", tier)
+    import shutil
+    shutil.rmtree(od, ignore_errors=True)
+    os.makedirs(od)
+    lines, sid, ncalls = [], 0, 0
+    for hi, (mode, fmt, ch) in enumerate(handles):
+        for nm in names:
+            sid += 1
+            lines.append("scn %d kind=c17 name=%s hmode=%s fmt=%s" % (sid, nm, mode, "0x%x" % fmt if fmt else "0"))
+            if fmt:
+                T = gen_core.type_for(fmt)
+                lines += ["file 1 new", "open 0 fd w 1 %d %d %d" % (fmt, ch, RATE), "setstr 0 1 5469746c65", "write 0 %s f 40 gen noise 3 0" % T, "close 0",
+                          "open 0 fd %s 1 %d %d %d" % (mode, fmt, ch, RATE)]
+                if mode != "w":
+                    lines.append("read 0 %s f 3" % T)
+                if mode != "r":
+                    lines.append("write 0 %s f 2 gen noise 4 0" % T)
+            for sz in sizes:
+                if tier == "quick" and sz > 60 and rng.random() < 0.5:
+                    continue
+                for hasdata in (0, 1):
+                    lines.append("cmdgrid %d %s %d %d" % (0 if fmt else -1, nm, sz, hasdata))
+                    ncalls += 1
+            lines.append("cmdgrid %d %s 2147483647 0" % (0 if fmt else -1, nm))
+            ncalls += 1
+            if fmt:
+                lines.append("close 0")
+    shards, nscn = vlib.split_scenarios(lines, vlib.NPROC)
+    jobs = []
+    for k, sh in enumerate(shards):
+        sp = os.path.join(od, "grid_%02d.script" % k)
+        open(sp, "w").write("\n".join(sh) + "\n")
+        jobs.append((sp, sp.replace(".script", ".ndjson")))
+
+    def one(job):
+        sp, ep = job
+        r = vlib.run_driver(exe, sp, ep, timeout=30)
+        v = vlib.validate_trace(ep, "TraceCmd.tla", "TraceCmd.cfg", heap="8g")
+        for b in v["bad"]:
+            b["script"], b["trace"] = sp, ep
+        v["restarts"] = r
+        return v
+    vs = vlib.parallel(jobs, one)
+    bad = [b for v in vs for b in v["bad"]]
+    # confirm: one representative per (command, reason, handle state)
+    seen, todo = set(), []
+    for b in bad:
+        key = (b.get("name"), b["why"], b.get("hstate"), b.get("hasdata"))
+        if key not in seen:
+            seen.add(key)
+            todo.append(b)
+    rd = os.path.join(od, "replay")
+    os.makedirs(rd, exist_ok=True)
+
+    def conf(b):
+        sc = vlib.scenario_text(open(b["script"]).read().splitlines(), b["s"])
+        rp = os.path.join(rd, "s%d.script" % b["s"])
+        open(rp, "w").write("\n".join(sc) + "\n")
+        ep = rp.replace(".script", ".ndjson")
+        vlib.run_driver(exe, rp, ep, timeout=30)
+        v = vlib.validate_trace(ep, "TraceCmd.tla", "TraceCmd.cfg")
+        hit = [x for x in v["bad"] if x.get("name") == b.get("name") and x["why"] == b["why"]]
+        if hit:
+            cfgd = json.loads(open(ep).readline()).get("cfg", {})
+            cfgd.update({"size": hit[0].get("size"), "hasdata": hit[0].get("hasdata"), "hstate": hit[0].get("hstate")})
+            return {"op": "cmdgrid", "why": b["why"], "why2": b["why"], "replay": os.path.relpath(rp, vlib.ROOT), "cfg": cfgd}
+        return None
+    confirmed = [r for r in vlib.parallel(todo[:300], conf) if r]
+    cov = {"states": sum(v["tlc_states"] for v in vs), "transitions": sum(v["lines"] for v in vs), "traces_validated_against_impl": len(jobs),
+           "evaluations": ncalls, "distinct_nontrivial": len(names) * len(handles),
+           "rule": "grid: %d command identifiers (every SFC_* of include/sndfile.h plus %d undefined ids) x datasize %s... (%d values, incl. struct sizes -1/0/+1/+8, 4096, INT_MAX with NULL) x data in {NULL, exact-size block ending at a PROT_NONE page} x handle in {NULL, read, write, read/write} x formats %s; distinct_nontrivial = (command, handle state/format) pairs" % (len(names), len(undefined), sizes[:12], len(sizes), ["0x%x" % f for f, _ in fmts]),
+           "samples": [lines[:12]], "exhaustive": tier == "thorough", "rejected_first_pass": len(bad), "rejected_confirmed": len(confirmed),
+           "queries_checked_pure": sum(v.get("queries", 0) for v in vs)}
+    return vlib.finish("C17", tier, "model_checking", cov, t0, confirmed,
+                       assumptions=["an access outside the block is observed as a page fault (PROT_NONE fence) or by ASan", "the hook snapshot covers the handle's position, settings and metadata bookkeeping"])
+
+
+REGISTRY = {"C01": c01, "C07": c07, "C15": c15, "C10": c10, "C13": c13, "C03": c03, "C18": c18, "C12": c12, "C17": c17, "C11": c11, "C19": c19, "C14": c14, "C16": c16, "C04": c04, "C05": c05, "C06": c06, "C08": c08, "C09": c09}
 
 
 def replay(prop, path):
